@@ -64,6 +64,14 @@ func genScenario(r *vlib.PRNG, idx int, buddy bool, steps int) *scenario {
 	if r.Chance(1, 3) {
 		sc.MaxProc = 1
 	}
+	// sibling flavour: 2-4 processes with 1-3 contexts each, created up front
+	// in a seeded order; mostly single-page buffers, so that the processes'
+	// virtual cursors advance together and buffers of different processes
+	// start at the same virtual addresses
+	if idx%4 == 1 {
+		sc.Sib = true
+		sc.MaxProc = 2 + r.Intn(3)
+	}
 	sc.Steps = steps/2 + r.Intn(steps+1)
 	sc.FreeMode = []string{"lifo", "fifo", "random"}[r.Intn(3)]
 	// The steering switches were introduced while two FreeMemory defects were
@@ -114,6 +122,9 @@ func (g *generator) pickSize(n int) uint64 {
 }
 
 func (g *generator) pickPages() int {
+	if g.w.sc.Sib && g.r.Chance(3, 5) {
+		return 1
+	}
 	switch g.r.Intn(10) {
 	case 0, 1, 2, 3:
 		return 1
@@ -149,10 +160,25 @@ func (g *generator) freeable(b *bufSt) bool {
 	return true
 }
 
+// bufsFor: the buffers context c may act on: its own, or (half of the time,
+// two thirds in the sibling flavour) all buffers of its process, which
+// includes those allocated through sibling contexts.
+func (g *generator) bufsFor(c int) []int {
+	w := g.w
+	num := 1
+	if w.sc.Sib {
+		num = 2
+	}
+	if g.r.Chance(num, num+1) {
+		return w.byPID[w.ctxs[c].pid]
+	}
+	return w.ctxs[c].bufs
+}
+
 func (g *generator) pickFree(c int) (int, bool) {
 	w := g.w
 	var cand []int
-	for _, s := range w.ctxs[c].bufs {
+	for _, s := range g.bufsFor(c) {
 		if g.freeable(w.bufs[s]) {
 			cand = append(cand, s)
 		}
@@ -172,7 +198,7 @@ func (g *generator) pickFree(c int) (int, bool) {
 func (g *generator) liveBufOf(c int) (int, bool) {
 	w := g.w
 	var cand []int
-	for _, s := range w.ctxs[c].bufs {
+	for _, s := range g.bufsFor(c) {
 		if w.bufs[s].live {
 			cand = append(cand, s)
 		}
@@ -334,6 +360,45 @@ func (g *generator) next(remaining int) (op, bool) {
 			return o, true
 		}
 	}
+	if len(w.ctxs) == 0 && w.sc.Sib {
+		// creation plan: process p's first context (Init) before its siblings
+		// (InitWithExistingPID), otherwise any order
+		np := w.sc.MaxProc
+		left := make([]int, np) // contexts still to create per process
+		first := make([]int, np)
+		for p := range left {
+			left[p] = 1 + r.Intn(3)
+			first[p] = -1
+		}
+		left[r.Intn(np)] = 2 + r.Intn(2) // at least one process has a sibling
+		nctx := 0
+		var plan []op
+		for {
+			var open []int
+			for p := range left {
+				if left[p] > 0 {
+					open = append(open, p)
+				}
+			}
+			if len(open) == 0 || nctx >= 8 {
+				break
+			}
+			p := open[r.Intn(len(open))]
+			if first[p] < 0 {
+				first[p] = nctx
+				plan = append(plan, op{K: kInit, C: nctx})
+			} else {
+				plan = append(plan, op{K: kInitPID, C: nctx, From: first[p]})
+			}
+			left[p]--
+			nctx++
+		}
+		g.pending = append(g.pending, plan[1:]...)
+		if g.focused() {
+			g.pending = append(g.pending, g.genUnify(0))
+		}
+		return plan[0], true
+	}
 	if len(w.ctxs) == 0 {
 		if g.focused() {
 			// unified devices first: 1-3 of them (member lists may overlap)
@@ -398,7 +463,7 @@ func (g *generator) next(remaining int) (op, bool) {
 			want := g.pickPagesFor(dev)
 			// a live buffer of the context with at least `want` pages if there is one
 			var big, all []int
-			for _, s := range cs.bufs {
+			for _, s := range g.bufsFor(c) {
 				if b := w.bufs[s]; b.live {
 					all = append(all, s)
 					if len(b.pages) >= want {
